@@ -140,9 +140,11 @@ def run_impl(case):
         c = _build(case)
         def _up():
             if case["scenario"]:
-                s = D.scenario(c, list(case["values"]))
+                shared = list(case["values"])
+                s = D.scenario(c, shared)
+                twin = D.scenario(_build(case), shared)     # another scenario built from the same values list
                 s.update(list(case["params"]))
-                return dict(wx=_wx(s), values=[float(v) for v in s.values])
+                return dict(wx=_wx(s), values=[float(v) for v in s.values], twin_values=[float(v) for v in twin.values], twin_wx=_wx(twin))
             c.update(list(case["params"]))
             return dict(wx=_wx(c), values=None)
         return {"update": _try(_up)}
@@ -232,6 +234,8 @@ def oracle(case, obs):
                     exp = (vals[:len(old)] + old[len(vals):]) if len(case["params"]) > full else old
                     if u["values"] != exp:
                         out.append(_fail("update_exact", "scenario.update", "values", u))
+                    if case["pts"] and "twin_values" in u and u["twin_values"] != [float(v) for v in old]:
+                        out.append(_fail("update_exact", "scenario.update", "changes-another-scenario", dict(twin=u["twin_values"], expected=old)))
     elif k == "pack":
         s = case["samples"]
         exp = [list(reversed(t)) for t in itertools.product(*reversed(s))]
